@@ -460,6 +460,10 @@ func js(kv ...interface{}) map[string]interface{} {
 	for i := 0; i+1 < len(kv); i += 2 {
 		if b, ok := kv[i+1].([]byte); ok {
 			m[kv[i].(string)] = lib.Q(b)
+		} else if n, ok := kv[i+1].(int64); ok {
+			m[kv[i].(string)] = fmt.Sprint(n) // exact: the log is re-read through float64-typed JSON numbers
+		} else if n, ok := kv[i+1].(uint64); ok {
+			m[kv[i].(string)] = fmt.Sprint(n)
 		} else {
 			m[kv[i].(string)] = kv[i+1]
 		}
@@ -891,7 +895,49 @@ func childProxy(maxIter int, budget time.Duration, logPath, scratch string) {
 	}
 	note("READY leader=%s", lis.Addr().String())
 	deadline := time.Now().Add(budget)
-	for it := 0; it < maxIter && time.Now().Before(deadline); it++ {
+	var iters int64
+	var wgp sync.WaitGroup
+	for g := 0; g < 4; g++ {
+		wgp.Add(1)
+		go func(g int) {
+			defer wgp.Done()
+			for it := 0; int(atomic.LoadInt64(&iters)) < maxIter && time.Now().Before(deadline); it++ {
+				if os.Getenv("C20_PROXY_DIRECT") == "1" {
+					c, cancel := context.WithTimeout(context.Background(), time.Duration(5+(it*7+g*3)%40)*time.Millisecond)
+					if ch, err := peersF.Watch(c, "/registry/pods/", 0); err == nil {
+						for range ch {
+						}
+					}
+					cancel()
+				} else {
+					proxyIteration(esF, it+g)
+				}
+				note("ITER %d", atomic.AddInt64(&iters, 1))
+			}
+		}(g)
+	}
+	wgp.Wait()
+	note("SURVIVED")
+	os.Exit(0)
+}
+
+func proxyIteration(esF *etcd.RPCServer, it int) {
+	func() {
+		defer func() {
+			if r := recover(); r != nil {
+				fmt.Fprintf(os.Stderr, "FOLLOWER-HANDLER-PANIC %v\n", r)
+				os.Exit(5)
+			}
+		}()
+		c, cancel := context.WithTimeout(context.Background(), 300*time.Millisecond)
+		defer cancel()
+		rng := lib.NewRand(uint64(it) + 99)
+		_, _ = esF.Txn(c, genTxn(rng, 1000)) // forwarded to the leader by the proxy
+		if it%8 == 0 {
+			_, _ = esF.Range(c, &etcdserverpb.RangeRequest{Key: genKey(rng), RangeEnd: genKey(rng), Limit: genLimit(rng), Revision: genRevI(rng, 1000)})
+		}
+	}()
+	{
 		c, cancel := context.WithCancel(context.Background())
 		ws := &etcdWatchStream{fakeStream: fakeStream{c}, in: make(chan *etcdserverpb.WatchRequest, 4)}
 		done := make(chan struct{})
@@ -909,10 +955,7 @@ func childProxy(maxIter int, budget time.Duration, logPath, scratch string) {
 		case <-time.After(3 * time.Second):
 		}
 		cancel()
-		note("ITER %d", it+1)
 	}
-	note("SURVIVED")
-	os.Exit(0)
 }
 
 // ---------- parent ----------
@@ -1307,6 +1350,44 @@ func main() {
 		}
 		if len(order) == 0 {
 			w.Fail(lib.ImplFailure{CaseID: -1, What: fmt.Sprintf("request child (%s) produced no log: %v %s", eng, runErr, tail(stderr.String(), 800))})
+		}
+	}
+
+	// ---- (d) a follower that forwards through its etcd proxy: watch create/cancel, Txn, Range
+	{
+		pb := 3 * time.Second
+		switch args.Tier {
+		case "thorough":
+			pb = 25 * time.Second
+		case "search":
+			pb = 10 * time.Second
+		}
+		logPath := filepath.Join(work, "proxy.log")
+		ctx, cancel := context.WithTimeout(context.Background(), pb+60*time.Second)
+		cmd := exec.CommandContext(ctx, exe, "-child", "proxy", "-count", "10000000", "-budget", pb.String(), "-out", logPath, "-scratch", work)
+		var stderr strings.Builder
+		cmd.Stderr = &tailWriter{sb: &stderr}
+		runErr := cmd.Run()
+		cancel()
+		lb, _ := os.ReadFile(logPath)
+		lg := string(lb)
+		iters := strings.Count(lg, "ITER ")
+		w.Stats.Extra["follower_proxy_iterations"] = iters
+		switch {
+		case strings.Contains(lg, "SETUP-FAILED"):
+			w.Stats.Extra["follower_proxy"] = "not run: " + tail(lg, 300)
+		case strings.Contains(lg, "SURVIVED"):
+			w.Stats.Extra["follower_proxy"] = "survived"
+		default:
+			var noise []string
+			for _, l := range strings.Split(stderr.String(), "\n") {
+				if !strings.HasPrefix(l, "{") {
+					noise = append(noise, l)
+				}
+			}
+			w.Fail(lib.ImplFailure{CaseID: -1, What: fmt.Sprintf("a follower node with the etcd proxy enabled died after %d rounds of {WatchCreateRequest, WatchCancelRequest, forwarded Txn} from a client (%v)", iters, runErr),
+				Case: map[string]interface{}{"sequence": "per round, on a new stream to the follower: WatchCreateRequest{key:/registry/} ; WatchCancelRequest{watch_id: the id just created} ; end of stream; plus one generated Txn and every 8th round a Range", "rounds": iters,
+					"stderr_tail": tail(strings.Join(noise, "\n"), 3000)}})
 		}
 	}
 
